@@ -69,16 +69,15 @@ def check(prop, tier, seed, a):
     cfg = PROPS[prop]
     contracts, lemmas, out = driver.run_property(prop, tier, seed, jobs=a.jobs)
     obs, meta, crashes = driver.aggregate(prop, contracts, lemmas, out)
-    if crashes:
-        hard = [c for c in crashes if not c.startswith("TIMEOUT ")]
-        for c in hard:
-            print("CHECKER-ERROR", c)
-        if hard:
-            return 3
-        for c in crashes:
-            print("UNDECIDED", c.strip())
-        return 2
+    timeouts = [c for c in crashes if c.startswith("TIMEOUT ")]
+    hard = [c for c in crashes if not c.startswith("TIMEOUT ")]
+    for c in hard:
+        print("CHECKER-ERROR", c)
+    if hard:
+        return 3
     if not obs:
+        for c in timeouts:
+            print("UNDECIDED", c.strip())
         print("CHECKER-ERROR no obligations generated")
         return 3
     baseline = load_baseline(tier).get(prop, {})
@@ -157,7 +156,9 @@ def check(prop, tier, seed, a):
             print(f"  failed obligation: {name}")
             print(f"VIOLATION property={prop} replay={path}{tail}")
         return 1
-    if undecided or missing:
+    if undecided or missing or timeouts:
+        for c in timeouts:
+            print("UNDECIDED", c.strip())
         for name, o in undecided:
             print(f"UNDECIDED obligation={name}: {(o['fail'] or {}).get('detail')}")
         for n in missing:
